@@ -348,12 +348,22 @@ impl Components {
                 };
             }
 
+            // El reparto se hace según la magnitud de la energía entregada o absorbida
+            for q_out in q_out_by_srv.values_mut() {
+                q_out.iter_mut().for_each(|v| *v = v.abs());
+            }
             let mut q_out_tot = vec![0.0; self.num_steps()];
             for q_out in q_out_by_srv.values() {
                 q_out_tot = vecvecsum(&*q_out_tot, q_out);
             }
+            // Magnitudes anuales, para repartir en los pasos sin energía saliente
+            let q_out_an_by_srv: HashMap<Service, f32> = q_out_by_srv
+                .iter()
+                .map(|(srv, q_out)| (*srv, q_out.iter().sum::<f32>()))
+                .collect();
+            let q_out_an_tot: f32 = q_out_an_by_srv.values().sum();
 
-            if aux_tot.iter().sum::<f32>() > 0.0 && q_out_tot.iter().sum::<f32>() == 0.0 {
+            if aux_tot.iter().sum::<f32>() > 0.0 && q_out_an_tot == 0.0 {
                 return Err(EpbdError::WrongInput(format!("Sin datos de energía saliente para hacer el reparto de los consumos auxiliares del sistema {}", id)));
             };
 
@@ -361,10 +371,15 @@ impl Components {
             let mut q_out_frac_by_srv = q_out_by_srv;
             let out_services: Vec<Service> = q_out_frac_by_srv.keys().cloned().collect();
             for service in &out_services {
+                let frac_an = if q_out_an_tot > 0.0 {
+                    q_out_an_by_srv[service] / q_out_an_tot
+                } else {
+                    0.0
+                };
                 let values = q_out_frac_by_srv[service]
                     .iter()
                     .zip(q_out_tot.iter())
-                    .map(|(val, tot)| if tot > &0.0 { val / tot } else { 0.0 })
+                    .map(|(val, tot)| if tot > &0.0 { val / tot } else { frac_an })
                     .collect();
                 q_out_frac_by_srv.insert(*service, values);
             }
